@@ -265,4 +265,318 @@ example : ∃ (Γ : List Vec) (lam : List Rat) (β b : Vec), lam.length = Γ.len
     have : s = 0 ∨ s = 1 := by omega
     rcases this with rfl | rfl <;> norm_num [Vec.get]
 
+
+/-! ## validity -/
+
+/-- transition and observation tables are row-stochastic, at least one action and one observation -/
+structure Valid (m : Model) : Prop where
+  hA : 0 < m.A
+  hO : 0 < m.O
+  T0 : ∀ s a s1, s < m.S → a < m.A → s1 < m.S → 0 ≤ m.T s a s1
+  T1 : ∀ s a, s < m.S → a < m.A → sumTo m.S (fun s1 => m.T s a s1) = 1
+  O0 : ∀ s1 a o, s1 < m.S → a < m.A → o < m.O → 0 ≤ m.Ob s1 a o
+  O1 : ∀ s1 a, s1 < m.S → a < m.A → sumTo m.O (fun o => m.Ob s1 a o) = 1
+
+/-- no observation probability lies in the tolerance band: `|O(s1,a,o)| ≤ τ` only when it is 0
+    (with τ = 0 this is vacuous for non-negative tables) -/
+def Sep (m : Model) (τ : Rat) : Prop :=
+  ∀ s1 a o, s1 < m.S → a < m.A → o < m.O → absR (m.Ob s1 a o) ≤ τ → m.Ob s1 a o = 0
+
+def NonNeg (n : Nat) (b : Vec) : Prop := ∀ s, s < n → 0 ≤ b.get s
+
+/-- a belief: non-negative entries summing to one -/
+def Simplex (n : Nat) (b : Vec) : Prop := NonNeg n b ∧ sumTo n b.get = 1
+
+/-! ## small sum lemmas -/
+
+theorem sumTo_zero (n : Nat) : sumTo n (fun _ => (0 : Rat)) = 0 := by
+  induction n with
+  | zero => rfl
+  | succ k ih => simp [sumTo, ih]
+
+theorem sumTo_nonneg {n : Nat} {f : Nat → Rat} (h : ∀ i, i < n → 0 ≤ f i) : 0 ≤ sumTo n f := by
+  have := sumTo_le (f := fun _ => 0) (g := f) h
+  rwa [sumTo_zero] at this
+
+theorem sumTo_eq_zero_imp {n : Nat} {f : Nat → Rat} (h0 : ∀ i, i < n → 0 ≤ f i) (hs : sumTo n f = 0) :
+    ∀ i, i < n → f i = 0 := by
+  induction n with
+  | zero => intro i hi; omega
+  | succ k ih =>
+    intro i hi
+    simp only [sumTo] at hs
+    have h1 : 0 ≤ sumTo k f := sumTo_nonneg (fun j hj => h0 j (by omega))
+    have h2 : 0 ≤ f k := h0 k (by omega)
+    rcases Nat.lt_or_ge i k with h | h
+    · exact ih (fun j hj => h0 j (by omega)) (by linarith) i h
+    · have : i = k := by omega
+      subst this; linarith
+
+theorem sumTo_div (n : Nat) (f : Nat → Rat) (c : Rat) : sumTo n (fun i => f i / c) = sumTo n f / c := by
+  induction n with
+  | zero => simp [sumTo]
+  | succ k ih => simp only [sumTo, ih]; ring
+
+theorem sumTo_const_div (n : Nat) (hn : 0 < n) (r : Rat) : sumTo n (fun _ => r / (n : Rat)) = r := by
+  have h : ∀ k : Nat, sumTo k (fun _ => r / (n : Rat)) = (k : Rat) * (r / (n : Rat)) := by
+    intro k
+    induction k with
+    | zero => simp [sumTo]
+    | succ k ih => simp only [sumTo, ih]; push_cast; ring
+  rw [h n]
+  have : (n : Rat) ≠ 0 := by exact_mod_cast (Nat.pos_iff_ne_zero.mp hn)
+  field_simp
+
+/-! ## belief update -/
+
+theorem updU_get (m : Model) (b : Vec) (a o : Nat) {s1 : Nat} (h : s1 < m.S) :
+    (updU m b a o).get s1 = m.Ob s1 a o * sumTo m.S (fun s => b.get s * m.T s a s1) := by
+  unfold updU; rw [mkVec_get _ h]
+
+theorem updU_nonneg (m : Model) (hv : Valid m) (b : Vec) (hb : NonNeg m.S b) {a o : Nat} (ha : a < m.A) (ho : o < m.O) :
+    NonNeg m.S (updU m b a o) := by
+  intro s1 h1
+  rw [updU_get m b a o h1]
+  apply mul_nonneg (hv.O0 s1 a o h1 ha ho)
+  apply sumTo_nonneg
+  intro s hs
+  exact mul_nonneg (hb s hs) (hv.T0 s a s1 hs ha h1)
+
+theorem vdiv_nonneg (n : Nat) (u : Vec) (p : Rat) (hu : NonNeg n u) (hp : 0 ≤ p) : NonNeg n (vdiv n u p) := by
+  intro s hs
+  unfold vdiv; rw [mkVec_get _ hs]
+  exact div_nonneg (hu s hs) hp
+
+theorem vsum_nonneg (n : Nat) (u : Vec) (hu : NonNeg n u) : 0 ≤ vsum n u := sumTo_nonneg hu
+
+theorem dot_vdiv (n : Nat) (u α : Vec) (p : Rat) : dot n (vdiv n u p) α = dot n u α / p := by
+  unfold dot vdiv
+  rw [← sumTo_div]
+  apply sumTo_congr
+  intro s hs
+  rw [mkVec_get _ hs]; ring
+
+theorem dot_zero_left (n : Nat) (u α : Vec) (h : ∀ s, s < n → u.get s = 0) : dot n u α = 0 := by
+  unfold dot
+  rw [← sumTo_zero n]
+  apply sumTo_congr
+  intro s hs; rw [h s hs]; ring
+
+/-- the algebraic heart: `b · proj_{a,o}(α) = γ · (u_{a,o}(b) · α) + (b · R_a)/|O|` -/
+theorem dot_projVec (m : Model) (b α : Vec) (a o : Nat) :
+    dot m.S b (projVec m α a o) = m.γ * dot m.S (updU m b a o) α + expReward m b a / (m.O : Rat) := by
+  unfold dot expReward
+  have e1 : sumTo m.S (fun s => b.get s * (projVec m α a o).get s)
+      = sumTo m.S (fun s => b.get s * (sumTo m.S (fun s1 => m.T s a s1 * (α.get s1 * m.Ob s1 a o)) * m.γ + m.R s a / (m.O : Rat))) := by
+    apply sumTo_congr; intro s hs; unfold projVec; rw [mkVec_get _ hs]
+  have e2 : sumTo m.S (fun s => (updU m b a o).get s * α.get s)
+      = sumTo m.S (fun s1 => m.Ob s1 a o * sumTo m.S (fun s => b.get s * m.T s a s1) * α.get s1) := by
+    apply sumTo_congr; intro s hs; rw [updU_get m b a o hs]
+  rw [e1, e2]
+  have e3 : sumTo m.S (fun s => b.get s * (sumTo m.S (fun s1 => m.T s a s1 * (α.get s1 * m.Ob s1 a o)) * m.γ + m.R s a / (m.O : Rat)))
+      = sumTo m.S (fun s => b.get s * (sumTo m.S (fun s1 => m.T s a s1 * (α.get s1 * m.Ob s1 a o)) * m.γ))
+        + sumTo m.S (fun s => m.R s a * b.get s / (m.O : Rat)) := by
+    rw [← sumTo_add]; apply sumTo_congr; intro s _; ring
+  rw [e3, sumTo_div]
+  congr 1
+  simp only [sumTo_eq]
+  simp only [Finset.mul_sum, Finset.sum_mul]
+  rw [Finset.sum_comm]
+  apply Finset.sum_congr rfl; intro s1 _
+  apply Finset.sum_congr rfl; intro s _
+  ring
+
+theorem dot_immR (m : Model) (b : Vec) (a : Nat) : dot m.S b (immR m a) = expReward m b a / (m.O : Rat) := by
+  unfold dot expReward immR
+  rw [← sumTo_div]
+  apply sumTo_congr; intro s hs
+  rw [mkVec_get _ hs]; ring
+
+/-! ## envelope of the projected lists, of cross-sums and of unions -/
+
+theorem possible_false (m : Model) (τ : Rat) (a o : Nat) (h : possible m τ a o = false) :
+    ∀ s, s < m.S → absR (m.Ob s a o) ≤ τ := by
+  intro s hs
+  unfold possible at h
+  rw [List.any_eq_false] at h
+  have := h s (List.mem_range.mpr hs)
+  simpa using this
+
+theorem projList_ne_nil (m : Model) (τ : Rat) (Γ : List Vec) (a o : Nat) (h : Γ ≠ []) : projList m τ Γ a o ≠ [] := by
+  unfold projList
+  split
+  · simpa using h
+  · simp
+
+/-- value contributed by observation `o` after action `a` when the continuation is the envelope of Γ -/
+def obsTerm (m : Model) (V : Vec → Rat) (b : Vec) (a o : Nat) : Rat :=
+  if vsum m.S (updU m b a o) = 0 then 0 else vsum m.S (updU m b a o) * V (vdiv m.S (updU m b a o) (vsum m.S (updU m b a o)))
+
+theorem qOf_eq (m : Model) (V : Vec → Rat) (b : Vec) (a : Nat) :
+    qOf m V b a = expReward m b a + m.γ * sumTo m.O (fun o => obsTerm m V b a o) := rfl
+
+/-- max over Γ of `u·α` is `p · env Γ (u/p)` (or 0 when the observation has probability 0) -/
+theorem lmax_dot_updU (m : Model) (Γ : List Vec) (h : Γ ≠ []) (u : Vec) (hu : NonNeg m.S u) :
+    lmax (Γ.map (fun α => dot m.S u α)) =
+      if vsum m.S u = 0 then 0 else vsum m.S u * env m.S Γ (vdiv m.S u (vsum m.S u)) := by
+  split
+  · rename_i hp
+    have hz := sumTo_eq_zero_imp hu hp
+    apply lmax_eq_of
+    · obtain ⟨α, hα⟩ := List.exists_mem_of_ne_nil Γ h
+      exact List.mem_map.mpr ⟨α, hα, dot_zero_left _ _ _ hz⟩
+    · intro x hx
+      obtain ⟨α, _, rfl⟩ := List.mem_map.mp hx
+      rw [dot_zero_left _ _ _ hz]
+  · rename_i hp
+    have hpos : 0 < vsum m.S u := lt_of_le_of_ne (vsum_nonneg _ _ hu) (Ne.symm hp)
+    unfold env
+    have : (Γ.map (fun α => dot m.S (vdiv m.S u (vsum m.S u)) α)) = (Γ.map (fun α => dot m.S u α)).map (fun x => (1 / vsum m.S u) * x) := by
+      rw [List.map_map]
+      apply List.map_congr_left
+      intro α _
+      simp only [Function.comp]
+      rw [dot_vdiv]; ring
+    rw [this, lmax_map_mul _ (div_nonneg zero_le_one (le_of_lt hpos)) _ (by simpa using h)]
+    field_simp
+
+theorem env_projList (m : Model) (hv : Valid m) (τ : Rat) (hsep : Sep m τ) (hγ : 0 ≤ m.γ) (Γ : List Vec) (hΓ : Γ ≠ [])
+    (b : Vec) (hb : NonNeg m.S b) {a o : Nat} (ha : a < m.A) (ho : o < m.O) :
+    env m.S (projList m τ Γ a o) b = expReward m b a / (m.O : Rat) + m.γ * obsTerm m (env m.S Γ) b a o := by
+  have hu := updU_nonneg m hv b hb ha ho
+  unfold projList
+  split
+  · -- possible observation: one projection per previous vector
+    unfold env
+    rw [List.map_map]
+    have : (Γ.map ((fun α => dot m.S b α) ∘ fun α => projVec m α a o))
+        = (Γ.map (fun α => dot m.S (updU m b a o) α)).map (fun x => expReward m b a / (m.O : Rat) + m.γ * x) := by
+      rw [List.map_map]
+      apply List.map_congr_left
+      intro α _
+      simp only [Function.comp]
+      rw [dot_projVec]; ring
+    rw [this]
+    have hne : (Γ.map (fun α => dot m.S (updU m b a o) α)) ≠ [] := by simpa using hΓ
+    have h2 : (List.map (fun α => dot m.S (updU m b a o) α) Γ).map (fun x => expReward m b a / (m.O : Rat) + m.γ * x)
+        = ((List.map (fun α => dot m.S (updU m b a o) α) Γ).map (fun x => m.γ * x)).map (fun x => expReward m b a / (m.O : Rat) + x) := by
+      simp only [List.map_map]; apply List.map_congr_left; intro α _; rfl
+    rw [h2, lmax_map_add _ _ (by simpa using hΓ), lmax_map_mul _ hγ _ hne, lmax_dot_updU m Γ hΓ _ hu]
+    rfl
+  · -- impossible observation: the single immediate-reward vector, and the observation has probability 0
+    rename_i hposs
+    have hposs' : possible m τ a o = false := by simpa using hposs
+    have hz : ∀ s1, s1 < m.S → (updU m b a o).get s1 = 0 := by
+      intro s1 h1
+      rw [updU_get m b a o h1, hsep s1 a o h1 ha ho (possible_false m τ a o hposs' s1 h1)]; ring
+    have hp : vsum m.S (updU m b a o) = 0 := by
+      unfold vsum
+      rw [← sumTo_zero m.S]
+      exact sumTo_congr hz
+    unfold obsTerm
+    rw [if_pos hp]
+    unfold env
+    simp only [List.map_cons, List.map_nil, lmax]
+    rw [dot_immR]; ring
+
+theorem crossTo_ne_nil (n k : Nat) (P : Nat → List Vec) (hP : ∀ o, o < k → P o ≠ []) : crossTo n k P ≠ [] := by
+  induction k with
+  | zero => simp [crossTo]
+  | succ k ih => exact crossSum_ne_nil n _ _ (ih (fun o ho => hP o (by omega))) (hP k (by omega))
+
+/-- envelope of the cross-sum of k lists = sum of the k envelopes -/
+theorem env_crossTo (n k : Nat) (P : Nat → List Vec) (b : Vec) (hP : ∀ o, o < k → P o ≠ []) :
+    env n (crossTo n k P) b = sumTo k (fun o => env n (P o) b) := by
+  induction k with
+  | zero => simp [crossTo, sumTo, env, lmax, dot_vzero]
+  | succ k ih =>
+    simp only [crossTo, sumTo]
+    rw [envelope_crossSum n _ _ b (crossTo_ne_nil n k P (fun o ho => hP o (by omega))) (hP k (by omega)),
+        ih (fun o ho => hP o (by omega))]
+
+theorem unionTo_ne_nil (k : Nat) (G : Nat → List Vec) (hG : G k ≠ []) : unionTo (k+1) G ≠ [] := by
+  simp [unionTo, hG]
+
+theorem env_append (n : Nat) (l1 l2 : List Vec) (b : Vec) (h1 : l1 ≠ []) (h2 : l2 ≠ []) :
+    env n (l1 ++ l2) b = if env n l1 b < env n l2 b then env n l2 b else env n l1 b := by
+  unfold env
+  rw [List.map_append, lmax_append _ _ (by simpa using h1) (by simpa using h2)]
+
+/-- envelope of the union over actions = max over actions of the envelopes -/
+theorem env_unionTo (n k : Nat) (G : Nat → List Vec) (b : Vec) (hG : ∀ a, a ≤ k → G a ≠ []) :
+    env n (unionTo (k+1) G) b = maxTo k (fun a => env n (G a) b) := by
+  induction k with
+  | zero => simp [unionTo, maxTo]
+  | succ k ih =>
+    have e : unionTo (k+1+1) G = unionTo (k+1) G ++ G (k+1) := rfl
+    rw [e, env_append n _ _ b (unionTo_ne_nil k G (hG k (by omega))) (hG (k+1) (le_refl _)),
+        ih (fun a ha => hG a (by omega))]
+    simp only [maxTo]
+
+theorem backupA_ne_nil (m : Model) (τ : Rat) (Γ : List Vec) (hΓ : Γ ≠ []) (a : Nat) : backupA m τ Γ a ≠ [] :=
+  crossTo_ne_nil _ _ _ (fun o _ => projList_ne_nil m τ Γ a o hΓ)
+
+theorem backupAll_ne_nil (m : Model) (hA : 0 < m.A) (τ : Rat) (Γ : List Vec) (hΓ : Γ ≠ []) : backupAll m τ Γ ≠ [] := by
+  unfold backupAll
+  obtain ⟨k, hk⟩ : ∃ k, m.A = k + 1 := ⟨m.A - 1, by omega⟩
+  rw [hk]
+  exact unionTo_ne_nil k _ (backupA_ne_nil m τ Γ hΓ k)
+
+theorem backupIter_ne_nil (m : Model) (hA : 0 < m.A) (τ : Rat) : ∀ h, backupIter m τ h ≠ []
+  | 0 => by simp [backupIter]
+  | h+1 => backupAll_ne_nil m hA τ _ (backupIter_ne_nil m hA τ h)
+
+/-- **one exact backup**: the envelope of the full backup of Γ is the one-step lookahead whose continuation is the envelope of Γ -/
+theorem env_backupAll (m : Model) (hv : Valid m) (τ : Rat) (hsep : Sep m τ) (hγ : 0 ≤ m.γ) (Γ : List Vec) (hΓ : Γ ≠ [])
+    (b : Vec) (hb : NonNeg m.S b) :
+    env m.S (backupAll m τ Γ) b = maxTo (m.A - 1) (qOf m (env m.S Γ) b) := by
+  unfold backupAll
+  obtain ⟨k, hk⟩ : ∃ k, m.A = k + 1 := ⟨m.A - 1, by have := hv.hA; omega⟩
+  rw [hk, env_unionTo m.S k _ b (fun a _ => backupA_ne_nil m τ Γ hΓ a)]
+  have : k + 1 - 1 = k := by omega
+  rw [this]
+  apply maxTo_congr
+  intro a ha
+  have haA : a < m.A := by omega
+  unfold backupA
+  rw [env_crossTo m.S m.O _ b (fun o _ => projList_ne_nil m τ Γ a o hΓ), qOf_eq]
+  have : sumTo m.O (fun o => env m.S (projList m τ Γ a o) b)
+      = sumTo m.O (fun o => expReward m b a / (m.O : Rat) + m.γ * obsTerm m (env m.S Γ) b a o) :=
+    sumTo_congr (fun o ho => env_projList m hv τ hsep hγ Γ hΓ b hb haA ho)
+  rw [this, sumTo_add, sumTo_mul_left, sumTo_const_div m.O hv.hO]
+
+theorem obsTerm_congr (m : Model) (hv : Valid m) (V V' : Vec → Rat) (hVV : ∀ b', NonNeg m.S b' → V b' = V' b')
+    (b : Vec) (hb : NonNeg m.S b) {a o : Nat} (ha : a < m.A) (ho : o < m.O) :
+    obsTerm m V b a o = obsTerm m V' b a o := by
+  unfold obsTerm
+  split
+  · rfl
+  · have hu := updU_nonneg m hv b hb ha ho
+    rw [hVV _ (vdiv_nonneg _ _ _ hu (vsum_nonneg _ _ hu))]
+
+theorem qOf_congr (m : Model) (hv : Valid m) (V V' : Vec → Rat) (hVV : ∀ b', NonNeg m.S b' → V b' = V' b')
+    (b : Vec) (hb : NonNeg m.S b) {a : Nat} (ha : a < m.A) : qOf m V b a = qOf m V' b a := by
+  rw [qOf_eq, qOf_eq]
+  congr 2
+  exact sumTo_congr (fun o ho => obsTerm_congr m hv V V' hVV b hb ha ho)
+
+/-- **alpha_backup_exact**: for every POMDP, horizon and (non-negative, in particular every) belief, the upper envelope of the
+    h-fold exact alpha-vector backup of the zero vector equals the exhaustive expectimax value.
+    `τ` is the Projecter's impossibility threshold; `Sep m τ` says no observation probability lies in (0, τ]
+    (vacuous at τ = 0; the library uses τ = 1e-6). -/
+theorem alpha_backup_exact (m : Model) (hv : Valid m) (τ : Rat) (hsep : Sep m τ) (hγ : 0 ≤ m.γ) :
+    ∀ (h : Nat) (b : Vec), NonNeg m.S b → env m.S (backupIter m τ h) b = expectimax m h b := by
+  intro h
+  induction h with
+  | zero =>
+    intro b _
+    simp [backupIter, expectimax, env, lmax, dot_vzero]
+  | succ h ih =>
+    intro b hb
+    simp only [backupIter, expectimax]
+    rw [env_backupAll m hv τ hsep hγ _ (backupIter_ne_nil m hv.hA τ h) b hb]
+    apply maxTo_congr
+    intro a ha
+    exact qOf_congr m hv _ _ ih b hb (by have := hv.hA; omega)
+
 end AITB.POMDP
